@@ -243,12 +243,12 @@ theorem colOrIdx_ok (x : ColOrIdx) (hx : colOrIdxOK d x = true) (r : List Tok) (
     simp only [h1]
 
 /-! ### a partition list after the word PARTITION -/
-theorem partition_ok (p : List Expr) (hp : TDM.PartRec d noX (some p)) (x : List Tok) (f : Nat)
-    (hf : 20 * sizeL (TDM.joinC (p.map (TQ.toksE3 d noX))) + 2 ≤ f) : pPartition d f true (partGrp d p :: x) = .ok (p, x) := by
+theorem partition_ok (p : List Expr) (hp : TDM2.PartRec d noX (some p)) (x : List Tok) (f : Nat)
+    (hf : 20 * sizeL (TDM2.joinC (p.map (TQ2.toksE4 d noX))) + 2 ≤ f) : pPartition d f true (partGrp d p :: x) = .ok (p, x) := by
   have h1 : pPartition d f false (opTok "PARTITION" :: partGrp d p :: x) = .ok (p, x) := by
     rcases hp with hp | hp
-    · exact TDM.items_ok p true (fun e he => TDM.static_item e (hp e he)) x f hf
-    · exact TDM.items_ok p false (fun e he => TDM.dyn_item e (hp e he)) x f hf
+    · exact TDM2.items_ok p true (fun e he => TDM2.static_item e (hp e he)) x f hf
+    · exact TDM2.items_ok p false (fun e he => TDM2.dyn_item e (hp e he)) x f hf
   have e : pPartition d f false (opTok "PARTITION" :: partGrp d p :: x) = pPartition d f true (partGrp d p :: x) := by
     unfold pPartition
     kw_simp
@@ -275,7 +275,7 @@ theorem alterOp_ok (o : AlterOp) (ho : alterOpOK d o = true) (r : List Tok) (hr 
   cases o with
   | addPartition b p =>
     simp only [alterOpOK] at ho
-    have hp := TDM.partRec TQ.chOK_noX (some p) ho
+    have hp := TDM2.partRec TQ2.chOK_noX (some p) ho
     simp only [toksAlterOp, sizeL_cons, sizeL_append, size_opTok, partGrp, size_grp, sizeL] at hf
     have h1 := partition_ok p hp r f (by omega)
     unfold pAlterExpr
@@ -326,7 +326,7 @@ theorem alterOp_ok (o : AlterOp) (ho : alterOpOK d o = true) (r : List Tok) (hr 
     simp only [ho]
   | dropPartition b p =>
     simp only [alterOpOK] at ho
-    have hp := TDM.partRec TQ.chOK_noX (some p) ho
+    have hp := TDM2.partRec TQ2.chOK_noX (some p) ho
     simp only [toksAlterOp, sizeL_cons, sizeL_append, size_opTok, partGrp, size_grp, sizeL] at hf
     have h1 := partition_ok p hp r f (by omega)
     unfold pAlterExpr
@@ -371,13 +371,13 @@ theorem alterLoop_ok (rest : List Tok) (hr : stopsAny d rest = true) :
 theorem alterOp_notDot (o : AlterOp) (x : List Tok) : searchStr (toksAlterOp d o ++ x) "." = false := by
   cases o <;> simp only [toksAlterOp, List.cons_append] <;> kw_simp
 
-theorem alter_ok (t : TableName) (o : AlterOp) (ops : List AlterOp) (ht : TDM.tblOKD t = true) (ho : alterOpOK d o = true)
+theorem alter_ok (t : TableName) (o : AlterOp) (ops : List AlterOp) (ht : TDM2.tblOKD t = true) (ho : alterOpOK d o = true)
     (hops : ∀ q ∈ ops, alterOpOK d q = true) (rest : List Tok) (hr : stopsAny d rest = true) (f : Nat)
     (hf : 20 * sizeL (toksAlter d t (o :: ops)) + 2 ≤ f) :
     pStatement d f (toksAlter d t (o :: ops) ++ rest) = .ok (.alter t (o :: ops), rest) := by
   simp only [toksAlter, toksAlterOps, sizeL_cons, sizeL_append, size_opTok] at hf
   have h1 : pTblName (tbl t :: (toksAlterOp d o ++ (toksAlterTail d ops ++ rest))) = .ok (t, _) :=
-    TDM.tblName_ok t ht _ (alterOp_notDot o _)
+    TDM2.tblName_ok t ht _ (alterOp_notDot o _)
   have h2 := alterOp_ok o ho (toksAlterTail d ops ++ rest) (alterTail_after ops rest hr) f (by omega)
   have h3 := alterLoop_ok rest hr ops hops [o] f ((toksAlterTail d ops ++ rest).length + 1) (by omega) (by
     have := length_alterTail (d := d) ops
